@@ -3,13 +3,12 @@
    Link_route_with_real_domain_matcher needs the packet's domain in normal form because C01_Spec compares it with
    the patterns byte for byte (see Link_C01_C11_normalisation_mismatch).  What the composition of the two models
    gives for a raw sniffed name is stated here: the pipeline decides as C01's `decide` does FOR THE NORMALISED
-   NAME (lower case, one trailing dot removed — C07_Spec.norm_name, proved equal to C11's normalize and hence to
-   strings.ToLower(strings.TrimSuffix(domain, "."))).  This is the statement a user of domain rules relies on. *)
+   NAME (lower case, one trailing dot removed — Link_DomainAdapter.s_norm, proved equal to C11's normalize,
+   i.e. strings.ToLower(strings.TrimSuffix(domain, ".")), and to C07_Spec.norm_name).  This is the statement a user of domain rules relies on. *)
 From Coq Require Import List Arith NArith Bool String Ascii Lia.
 From Dae Require Import C11_Spec C11_Model C11_Louds C11_Proofs C11_Layer3 C11_Props.
 From Dae.gen Require Import C11_Extracted.
 From Dae Require Import Link_DomainAdapter.
-From Dae Require C07_Spec Link_C07_C11.
 From Dae Require Import C01_Spec C01_Model C01_Proofs C01_Props.
 From Dae Require Import Link_C01_C11.
 Import ListNotations.
@@ -21,7 +20,7 @@ Definition with_domain (pk : packet) (d : string) : packet :=
      p_mac := p_mac pk; p_dscp := p_dscp pk |}.
 
 (* the packet as the rules see it *)
-Definition normalized_packet (pk : packet) : packet := with_domain pk (C07_Spec.norm_name (p_domain pk)).
+Definition normalized_packet (pk : packet) : packet := with_domain pk (s_norm (p_domain pk)).
 
 (* Match reads the domain only to fetch the bitmap *)
 Lemma match_loop_domain : forall tries pk d bm ms i g b mu,
@@ -75,17 +74,17 @@ Theorem Link_route_with_real_domain_matcher_any_case :
 Proof.
   intros p pk rx_ok rx pk' Hwf Hk Hs Ho Hn Hidx Hz Hroot Hrx.
   assert (Hn' : name_ok (bytes (p_domain pk')) = true).
-  { unfold pk', normalized_packet, with_domain. cbn [p_domain]. rewrite Link_C07_C11.bytes_norm_name.
+  { unfold pk', normalized_packet, with_domain. cbn [p_domain]. rewrite bytes_s_norm.
     pose proof (normalize_pat_ok _ Hn) as Hp. unfold name_ok, pat_ok in *. rewrite forallb_forall in *.
     intros c Hc. unfold name_char. now rewrite (Hp c Hc). }
   destruct (Link_route_with_real_domain_matcher p pk' rx_ok rx Hwf Hk Hs Ho Hn' Hidx Hz Hrx) as [m [Hb Hr]].
   exists m. split; [exact Hb|]. rewrite <- Hr. unfold pk', normalized_packet.
   apply model_route_domain.
-  set (d := p_domain pk) in *. set (d' := C07_Spec.norm_name d).
+  set (d := p_domain pk) in *. set (d' := s_norm d).
   assert (Hbm : c01_dm rx m d = c01_dm rx m d').
-  { unfold c01_dm. apply c11_bitmap_normalize. unfold d'. rewrite Link_C07_C11.bytes_norm_name.
+  { unfold c01_dm. apply c11_bitmap_normalize. unfold d'. rewrite bytes_s_norm.
     symmetry. unfold pk', normalized_packet, with_domain in Hz. cbn [p_domain] in Hz.
-    fold d in Hz. rewrite Link_C07_C11.bytes_norm_name in Hz. exact Hz. }
+    fold d in Hz. rewrite bytes_s_norm in Hz. exact Hz. }
   destruct (String.eqb_spec d "") as [E|E].
   - subst d'. rewrite E. reflexivity.
   - specialize (Hroot E). unfold pk', normalized_packet, with_domain in Hroot. cbn [p_domain] in Hroot. fold d d' in Hroot.
